@@ -273,9 +273,22 @@ def shape_key(s):
 # --------------------------------------------------------------------------- build
 
 
-def _mk_q(q, node):
+def _mk_q(q, node, qreg=None):
     import histogrammar as hg
     from histogrammar.util import cached, named
+
+    if q["kind"] == "shared":
+        # one wrapper object used by several nodes / trees (C17): mode "cached" or "plain"
+        key = (q["id"], q.get("mode", "cached"))
+        if key not in qreg:
+            fn = gate.make_lambda(1000 + q["id"], q["f"])
+            qreg[key] = cached(fn) if q.get("mode", "cached") == "cached" else fn
+        return qreg[key]
+    if q["kind"] == "expr":
+        # C17: a string expression, or the equivalent Python function built from the same AST
+        from .scenarios.c17 import expr_function, expr_source
+
+        return expr_source(q["ast"]) if q.get("mode", "str") == "str" else expr_function(q["ast"])
 
     kind = q["kind"]
     f = q["f"]
@@ -315,7 +328,7 @@ def quantity_name(q):
     return None
 
 
-def build(s, _ctr=None, refs=None):
+def build(s, _ctr=None, refs=None, qreg=None):
     """Real histogrammar object for a spec, through the public constructors.
 
     ``refs`` maps names to already built objects; a node ``{"p": "ref", "name": N}`` is replaced by that very
@@ -333,11 +346,11 @@ def build(s, _ctr=None, refs=None):
         if s.get("transform") == "sq":
             return hg.Count(eval("lambda w: w * w", {}))
         return hg.Count()
-    q = _mk_q(s["q"], node) if "q" in s else None
+    q = _mk_q(s["q"], node, qreg) if "q" in s else None
     kw = {}
     for name, c in child_slots(s):
         if ":" not in name:
-            kw[name] = build(c, _ctr, refs)
+            kw[name] = build(c, _ctr, refs, qreg)
     if p in ("Sum", "Average", "Deviate", "Minimize", "Maximize"):
         return getattr(hg, p)(q)
     if p == "Bag":
@@ -359,10 +372,10 @@ def build(s, _ctr=None, refs=None):
     if p == "Fraction":
         return hg.Fraction(q, **kw)
     if p in ("Label", "UntypedLabel"):
-        pairs = {k: build(c, _ctr, refs) for k, c in s["pairs"].items()}
+        pairs = {k: build(c, _ctr, refs, qreg) for k, c in s["pairs"].items()}
         return getattr(hg, p)(**pairs)
     if p in ("Index", "Branch"):
-        vals = [build(c, _ctr, refs) for c in s["values"]]
+        vals = [build(c, _ctr, refs, qreg) for c in s["values"]]
         return getattr(hg, p)(*vals)
     raise ValueError(p)
 
